@@ -88,7 +88,7 @@ def names_of(rep, key):
 
 def run_case(case, cx):
     m, m2, cfg = case["model"], case["mutant"], case["cfg"]
-    d, b1, b2 = pairs.build_pair(cx, m, m2, cfg, nodebug_tus=tuple(case["nodebug"]))
+    d, b1, b2 = pairs.build_pair(cx, m, m2, cfg, nodebug_tus=tuple(case["nodebug"]), sonames=case.get("sonames"))
     opts = list(case["mode"])
     f = pairs.abidiff(cx, b1, b2, opts)
     r = pairs.abidiff(cx, b2, b1, opts)
